@@ -122,7 +122,7 @@ static void gen_trigger(int trig, int full) {
 
 static int worker(int argc, char **argv) {
     int thorough = !strcmp(hx_tier, "thorough");
-    int full = atoi(hx_arg(argc, argv, "--full", thorough ? "1" : "0"));
+    int full = atoi(hx_arg(argc, argv, "--full", "1")); (void) thorough;
     CUTS = atoi(hx_arg(argc, argv, "--cuts", "1"));
     for (int t = 0; t < T__N; t++) { gen_trigger(t, full); if (hx_deadline_hit()) break; }
     hx_emit_stat("executions", n_exec); hx_emit_stat("calls", n_calls); hx_emit_stat("requests", n_req); hx_emit_stat("distinct_outcomes", (long long) outs.cnt);
